@@ -229,6 +229,8 @@ let () =
                  | Panic _ -> mo) in
                let diffs = diff_obs mo io in
                let diffs = if (not legacy) && not (lI_check c) then "model.li" :: diffs else diffs in
+               let diffs = if legacy then diffs else
+                 (match int_of_nat (stage_check c) with 0 -> diffs | n -> ("model.stage" ^ string_of_int n) :: diffs) in
                let jf = ref [] in
                let j name f = if not (f c io) then jf := name :: !jf in
                j "C01" c01_judge; j "C02" c02_judge; j "C03" c03_judge; j "C04" c04_judge; j "C05" c05_judge;
